@@ -8,6 +8,7 @@ import (
 	_ "google.golang.org/protobuf/verifmc/checks/c07"
 	_ "google.golang.org/protobuf/verifmc/checks/c08"
 	_ "google.golang.org/protobuf/verifmc/checks/c09"
+	_ "google.golang.org/protobuf/verifmc/checks/c10"
 	_ "google.golang.org/protobuf/verifmc/checks/c14"
 	_ "google.golang.org/protobuf/verifmc/checks/c16"
 	_ "google.golang.org/protobuf/verifmc/checks/c30"
